@@ -26,12 +26,17 @@ Norm(st) == [vers |-> {st.vers[i] : i \in 1..Len(st.vers)},
 \* processed (-1: none), local = the client's own alert ("" if it sent none).
 SentinelEnforced(cs, ss, sawVer, local) ==
   (4 \in cs.vers /\ 4 \in ss.vers /\ sawVer >= 0 /\ sawVer < 4 /\ sawVer \in ss.vers) => local = "illegal_parameter"
+\* ... and the server side of the same rule: a TLS 1.3 capable server marks the ServerHello.random of an older
+\* version with DOWNGRD 01 (TLS 1.2) / DOWNGRD 00 (TLS 1.1 and below), and never marks a TLS 1.3 hello
+ServerMark(ss, sawVer, mark) ==
+  (4 \in ss.vers /\ sawVer >= 0) => mark = (IF sawVer = 4 THEN "" ELSE IF sawVer = 3 THEN "01" ELSE "00")
 TraceInit == tid \in 1..N /\ l = 2
 TraceNext ==
   /\ l <= Len(T) /\ E.ev = "RES" /\ l' = l + 1 /\ UNCHANGED tid
   /\ (E.both => /\ Outcome(Norm(T[1].cs), Norm(T[1].ss), E.c, E.s)
                 /\ ~E.bodyTamper)
   /\ SentinelEnforced(Norm(T[1].cs), Norm(T[1].ss), E.cSawVer, E.cLocal)
+  /\ ServerMark(Norm(T[1].ss), E.sSentVer, E.shMark)       \* what the server itself put on the wire
 Mark == IF l - 1 > TLCGet(tid) THEN TLCSet(tid, l - 1) ELSE TRUE
 ASSUME \A i \in 1..N : TLCSet(i, 0)
 Rejected == { i \in 1..N : TLCGet(i) # Len(Traces[i]) }
